@@ -595,11 +595,15 @@ def run(ctx):
     try:
         nkeys = scout(pool, jobs, judge)
         t_scout = time.time() - t0
+        print("[C04] scout: %d out-of-contract classes, %d pruned after %d worker deaths, %.1fs"
+              % (nkeys, len(pool.pruned), len(pool.crashes), t_scout), flush=True)
         results = pool.run(jobs)
         judge.absorb(results)
+        print("[C04] bulk grids: %d jobs, %.1fs" % (len(jobs), time.time() - t0), flush=True)
         bfs = None
         if "buffer" in parts:
             bfs = buffer_bfs(ctx, pool, judge, 4 if thorough else 3, len(jobs))
+            print("[C04] buffer BFS done, %.1fs" % (time.time() - t0), flush=True)
     finally:
         pool.close()
     judge.absorb_crashes()
